@@ -117,7 +117,7 @@ func runMem(c Case, tr *Tracer) {
 	cm, sm := codec.NewCMPPCodec(), codec.NewSMPPCodec()
 	conn := &scriptedConn{fault: "eof"}
 	for s := 0; s < steps; s++ {
-		switch rr.Intn(10) {
+		switch rr.Intn(11) {
 		case 0, 1: // encode, then the caller scribbles over the returned bytes
 			tn := typeNames[rr.Intn(len(typeNames))]
 			a := defaultAssign(rr, tn, true)
@@ -169,6 +169,64 @@ func runMem(c Case, tr *Tracer) {
 				in[i] = 0xEE
 			}
 			emit(Ev{"ev": "Scribble", "i": iid}, "Scribble")
+		case 10: // the caller keeps the lists / byte fields of a decoded PDU and decodes the next frame into the same object
+			var decs []*liveResult
+			for _, lr := range live {
+				if lr.kind == "decode" && lr.pdu != nil {
+					decs = append(decs, lr)
+				}
+			}
+			if len(decs) == 0 {
+				continue
+			}
+			old := decs[rr.Intn(len(decs))]
+			root := reflect.ValueOf(old.pdu).Elem()
+			var heldLists [][]string
+			var heldBytes [][]byte
+			for _, f := range layouts[old.tn].Fields {
+				fv := resolve(root, f.Go)
+				switch v := fv.Interface().(type) {
+				case []string:
+					heldLists = append(heldLists, v)
+				case []byte:
+					heldBytes = append(heldBytes, v)
+				}
+			}
+			if len(heldLists)+len(heldBytes) == 0 {
+				continue
+			}
+			// the object is used again: its old content is given up, the fields taken out of it are not
+			for i, lr := range live {
+				if lr == old {
+					live = append(live[:i], live[i+1:]...)
+					forget = append(forget, old.id)
+					break
+				}
+			}
+			id := nextID
+			nextID++
+			fl := &liveResult{id: id, kind: "fields", tn: old.tn}
+			fl.read = func() string { return snapJSON([]interface{}{heldLists, heldBytes}) }
+			add(fl)
+			emit(Ev{"ev": "Codec", "r": id, "fn": "fields of a decoded " + old.tn, "same": true}, "Codec")
+			img, err := build(old.tn, defaultAssign(rr, old.tn, true)).IEncode()
+			if err != nil {
+				emit(Ev{"ev": "NewInput", "i": nextIn}, "NewInput")
+				nextIn++
+				continue
+			}
+			iid := nextIn
+			nextIn++
+			emit(Ev{"ev": "NewInput", "i": iid}, "NewInput")
+			if old.pdu.IDecode(append([]byte{}, img...)) != nil {
+				continue
+			}
+			nid := nextID
+			nextID++
+			nr := &liveResult{id: nid, kind: "decode", tn: old.tn, pdu: old.pdu}
+			nr.read = func() string { return snapJSON(project(nr.tn, nr.pdu)) }
+			add(nr)
+			emit(Ev{"ev": "Decode", "r": nid, "i": iid, "type": old.tn, "same": true}, "Decode")
 		case 4: // String() of a PDU: a fresh one, or (every second time) a decoded one the caller still holds
 			tn := typeNames[rr.Intn(len(typeNames))]
 			var obj interface{} = build(tn, defaultAssign(rr, tn, true))
